@@ -501,6 +501,7 @@ def run(ctx):
             res.fail(k, sig, inp, d)
     for tag, st, path, opts in cases[:3] + cases[len(cases) // 2: len(cases) // 2 + 3]:
         res.sample({"family": tag, "residues": [str(r) for r in st.residues][:6], "atoms": g3.n_atoms(st), "options": len(opts)})
+    __import__("corr.fn_common", fromlist=["run_fn"]).run_fn(ctx, res, "C17")  # regenerated functions vs the real ones (tools/py2lean.py)
     return res
 
 
